@@ -394,15 +394,15 @@ theorem const_agree {rt : Prop} {v : JV} {d : DV} (h : valueOfImage (specCfg cfg
   rw [Bool.and_false]; exact Agree.ok (fun _ => h)
 
 mutual
-theorem toValue_agree : ∀ p : SVal, inScope p = true → hasSomeKey p = false →
+theorem toValue_agree : ∀ p : SVal, inScope p = true →
     Agree (!cfg.ap && has128OutOfRange p) (floatsRT (specCfg cfg) ext (widenF32 cfg.ap p) = true)
       (valueOfImage (specCfg cfg)) (toValue cfg ext p) (image ext (widenF32 cfg.ap p))
-  | .bool b => fun _ _ => by
+  | .bool b => fun _ => by
     simp only [has128OutOfRange, toValue, widenF32, image]; exact const_agree cfg ext hext rfl
-  | .int w n => fun hs _ => by
+  | .int w n => fun hs => by
     simp only [toValue, widenF32, image]
     exact (int_agree cfg ext hext w n (by simpa [inScope] using hs)).mono (fun _ => trivial)
-  | .f32 b => fun _ _ => by
+  | .f32 b => fun _ => by
     simp only [has128OutOfRange, Bool.and_false, toValue]
     by_cases hw : (!cfg.ap && finite32 b) = true
     · simp only [widenF32, hw, if_true, image, floatsRT]
@@ -422,107 +422,104 @@ theorem toValue_agree : ∀ p : SVal, inScope p = true → hasSomeKey p = false 
         simp only [hfin, if_true, hap]
         exact voi_numOf_ap cfg hap _
       · simp only [hfin]; rfl
-  | .f64 b => fun _ _ => by
+  | .f64 b => fun _ => by
     simp only [has128OutOfRange, Bool.and_false, toValue, widenF32, image, floatsRT]
     exact f64_agree cfg ext b
-  | .char cp => fun _ _ => by
+  | .char cp => fun _ => by
     simp only [has128OutOfRange, toValue, widenF32, image]; exact const_agree cfg ext hext rfl
-  | .str s => fun _ _ => by
+  | .str s => fun _ => by
     simp only [has128OutOfRange, toValue, widenF32, image]; exact const_agree cfg ext hext rfl
-  | .bytes bs => fun _ _ => by
+  | .bytes bs => fun _ => by
     simp only [has128OutOfRange, toValue, widenF32, image]
     exact const_agree cfg ext hext (voi_arr _ _ _ (bytes_voi cfg ext hext bs))
-  | .none => fun _ _ => by
+  | .none => fun _ => by
     simp only [has128OutOfRange, toValue, widenF32, image]; exact const_agree cfg ext hext rfl
-  | .some p => fun hs hk => by
+  | .some p => fun hs => by
     simp only [has128OutOfRange, toValue, widenF32, image, floatsRT]
-    exact toValue_agree p (by simpa [inScope] using hs) (by simpa [hasSomeKey] using hk)
-  | .unit => fun _ _ => by
+    exact toValue_agree p (by simpa [inScope] using hs)
+  | .unit => fun _ => by
     simp only [has128OutOfRange, toValue, widenF32, image]; exact const_agree cfg ext hext rfl
-  | .unitStruct => fun _ _ => by
+  | .unitStruct => fun _ => by
     simp only [has128OutOfRange, toValue, widenF32, image]; exact const_agree cfg ext hext rfl
-  | .unitVariant v => fun _ _ => by
+  | .unitVariant v => fun _ => by
     simp only [has128OutOfRange, toValue, widenF32, image]; exact const_agree cfg ext hext rfl
-  | .newtypeStruct p => fun hs hk => by
+  | .newtypeStruct p => fun hs => by
     simp only [has128OutOfRange, toValue, widenF32, image, floatsRT]
-    exact toValue_agree p (by simpa [inScope] using hs) (by simpa [hasSomeKey] using hk)
-  | .newtypeVariant v p => fun hs hk => by
+    exact toValue_agree p (by simpa [inScope] using hs)
+  | .newtypeVariant v p => fun hs => by
     simp only [has128OutOfRange, toValue, widenF32, image, floatsRT]
     exact Agree.map (fun d x h => voi_tagged cfg v d x h)
-      (toValue_agree p (by simpa [inScope] using hs) (by simpa [hasSomeKey] using hk))
-  | .seq _ xs => fun hs hk => by
+      (toValue_agree p (by simpa [inScope] using hs))
+  | .seq _ xs => fun hs => by
     simp only [has128OutOfRange, toValue, widenF32, image, floatsRT]
     exact Agree.map (fun ds vs h => voi_arr _ ds vs h)
-      (toValues_agree xs (by simpa [inScope] using hs) (by simpa [hasSomeKey] using hk))
-  | .tuple xs => fun hs hk => by
+      (toValues_agree xs (by simpa [inScope] using hs))
+  | .tuple xs => fun hs => by
     simp only [has128OutOfRange, toValue, widenF32, image, floatsRT]
     exact Agree.map (fun ds vs h => voi_arr _ ds vs h)
-      (toValues_agree xs (by simpa [inScope] using hs) (by simpa [hasSomeKey] using hk))
-  | .tupleStruct xs => fun hs hk => by
+      (toValues_agree xs (by simpa [inScope] using hs))
+  | .tupleStruct xs => fun hs => by
     simp only [has128OutOfRange, toValue, widenF32, image, floatsRT]
     exact Agree.map (fun ds vs h => voi_arr _ ds vs h)
-      (toValues_agree xs (by simpa [inScope] using hs) (by simpa [hasSomeKey] using hk))
-  | .tupleVariant v xs => fun hs hk => by
+      (toValues_agree xs (by simpa [inScope] using hs))
+  | .tupleVariant v xs => fun hs => by
     simp only [has128OutOfRange, toValue, widenF32, image, floatsRT]
     exact Agree.map (fun ds vs h => voi_tagged cfg v (.arr ds) (.arr vs) (voi_arr _ ds vs h))
-      (toValues_agree xs (by simpa [inScope] using hs) (by simpa [hasSomeKey] using hk))
-  | .map _ es => fun hs hk => by
+      (toValues_agree xs (by simpa [inScope] using hs))
+  | .map _ es => fun hs => by
     simp only [has128OutOfRange, toValue, widenF32, image, floatsRT]
     exact Agree.map (fun ms vs h => voi_obj cfg ms vs h)
-      (toEntries_agree es (by simpa [inScope] using hs) (by simpa [hasSomeKey] using hk))
-  | .struct_ fs => fun hs hk => by
+      (toEntries_agree es (by simpa [inScope] using hs))
+  | .struct_ fs => fun hs => by
     simp only [has128OutOfRange, toValue, widenF32, image, floatsRT]
     exact Agree.map (fun ms vs h => voi_obj cfg ms vs h)
-      (toFields_agree fs (by simpa [inScope] using hs) (by simpa [hasSomeKey] using hk))
-  | .structVariant v fs => fun hs hk => by
+      (toFields_agree fs (by simpa [inScope] using hs))
+  | .structVariant v fs => fun hs => by
     simp only [has128OutOfRange, toValue, widenF32, image, floatsRT]
     exact Agree.map (fun ms vs h => voi_tagged cfg v (.obj ms) (mkObj cfg vs) (voi_obj cfg ms vs h))
-      (toFields_agree fs (by simpa [inScope] using hs) (by simpa [hasSomeKey] using hk))
-  | .collectStr s => fun _ _ => by
+      (toFields_agree fs (by simpa [inScope] using hs))
+  | .collectStr s => fun _ => by
     simp only [has128OutOfRange, toValue, widenF32, image]; exact const_agree cfg ext hext rfl
-  | .numberLit s => fun hs _ => by simp [inScope] at hs
+  | .numberLit s => fun hs => by simp [inScope] at hs
 
-theorem toValues_agree : ∀ xs : List SVal, inScopeList xs = true → hasSomeKeyList xs = false →
+theorem toValues_agree : ∀ xs : List SVal, inScopeList xs = true →
     Agree (!cfg.ap && has128List xs) (floatsRTList (specCfg cfg) ext (widenList cfg.ap xs) = true)
       (valueOfImages (specCfg cfg)) (toValues cfg ext xs) (imageList ext (widenList cfg.ap xs))
-  | [] => fun _ _ => by
+  | [] => fun _ => by
     simp only [has128List, Bool.and_false, toValues, widenList, imageList]; exact Agree.ok (fun _ => rfl)
-  | x :: xs => fun hs hk => by
+  | x :: xs => fun hs => by
     simp only [inScopeList, Bool.and_eq_true] at hs
-    simp only [hasSomeKeyList, Bool.or_eq_false_iff] at hk
     rw [has128List, blocked_or, toValues_cons, widenList, imageList_cons]
     exact (Agree.cons (fun d ds v vs h1 h2 => voi_cons _ d ds v vs h1 h2)
-      (toValue_agree x hs.1 hk.1) (toValues_agree xs hs.2 hk.2)).mono
+      (toValue_agree x hs.1) (toValues_agree xs hs.2)).mono
       (by simp only [floatsRTList, Bool.and_eq_true]; exact id)
 
-theorem toEntries_agree : ∀ es : List (SVal × SVal), inScopeEntries es = true → hasSomeKeyEntries es = false →
+theorem toEntries_agree : ∀ es : List (SVal × SVal), inScopeEntries es = true →
     Agree (!cfg.ap && has128Entries es) (floatsRTEntries (specCfg cfg) ext (widenEntries cfg.ap es) = true)
       (valueOfMembers (specCfg cfg)) (toEntries cfg ext es) (imageEntries ext (widenEntries cfg.ap es))
-  | [] => fun _ _ => by
+  | [] => fun _ => by
     simp only [has128Entries, Bool.and_false, toEntries, widenEntries, imageEntries]; exact Agree.ok (fun _ => rfl)
-  | (k, v) :: es => fun hs hk => by
+  | (k, v) :: es => fun hs => by
     simp only [inScopeEntries, Bool.and_eq_true] at hs
-    simp only [hasSomeKeyEntries, Bool.or_eq_false_iff] at hk
     rw [has128Entries, blocked_or, toEntries_cons, widenEntries, imageEntries_cons,
-      keyVal_eq_keyText ext k hk.1.1]
+      keyVal_eq_keyText ext k]
     cases keyText ext k with
     | error e => left; rfl
     | ok kt =>
       exact (Agree.cons (fun d ds v vs h1 h2 => vom_cons _ kt d ds v vs h1 h2)
-        (toValue_agree v hs.1 hk.1.2) (toEntries_agree es hs.2 hk.2)).mono
+        (toValue_agree v hs.1) (toEntries_agree es hs.2)).mono
         (by simp only [floatsRTEntries, Bool.and_eq_true]; exact id)
 
-theorem toFields_agree : ∀ fs : List (Bytes × SVal), inScopeFields fs = true → hasSomeKeyFields fs = false →
+theorem toFields_agree : ∀ fs : List (Bytes × SVal), inScopeFields fs = true →
     Agree (!cfg.ap && has128Fields fs) (floatsRTFields (specCfg cfg) ext (widenFields cfg.ap fs) = true)
       (valueOfMembers (specCfg cfg)) (toFields cfg ext fs) (imageFields ext (widenFields cfg.ap fs))
-  | [] => fun _ _ => by
+  | [] => fun _ => by
     simp only [has128Fields, Bool.and_false, toFields, widenFields, imageFields]; exact Agree.ok (fun _ => rfl)
-  | (n, v) :: fs => fun hs hk => by
+  | (n, v) :: fs => fun hs => by
     simp only [inScopeFields, Bool.and_eq_true] at hs
-    simp only [hasSomeKeyFields, Bool.or_eq_false_iff] at hk
     rw [has128Fields, blocked_or, toFields_cons, widenFields, imageFields_cons]
     exact (Agree.cons (fun d ds v vs h1 h2 => vom_cons _ n d ds v vs h1 h2)
-      (toValue_agree v hs.1 hk.1) (toFields_agree fs hs.2 hk.2)).mono
+      (toValue_agree v hs.1) (toFields_agree fs hs.2)).mono
       (by simp only [floatsRTFields, Bool.and_eq_true]; exact id)
 end
 
